@@ -121,6 +121,36 @@ def random_match_case(rng, exact=True, scope="in"):
 CASE_KEYS = ("fn", "x", "y", "xref", "yref", "mode", "strategy", "given", "trule", "rrule", "alpha", "alpha_f", "exact", "bounded", "container", "ycontainer", "mc")
 
 
+def random_private_case(rng):
+    """Direct calls of the private kernels with the defaults of their optional arguments (beyond the listed properties)."""
+    n = rng.randint(3, 14)
+    xnone = rng.random() < 0.5
+    xs = [Fraction(i) for i in range(n)] if xnone else (grid(rng, n, n))
+    c = {"fn": "stretch_private", "xnone": xnone, "x": [R(v) for v in xs], "dx": R(rng.choice([1, Fraction(1, 2), 2])),
+         "y": [R(Fraction(rng.randint(-20, 20), 4)) for _ in range(n)], "rule": rng.choice(RULES), "alpha": R(rng.choice([1, 1, 2, 3])),
+         "ycontainer": rng.choice(["array", "array", "list"]),
+         "kind": "window", "target": R(0), "valsnone": False, "values": [], "fpinone": False, "fpi": []}
+    r = rng.random()
+    if r < 0.3:
+        c["target"] = R(Fraction(rng.randint(-40, 40), 4))
+        return c
+    c["kind"] = "interval"
+    fpi = pick_fixed(rng, n, maxwin=6, minint=rng.choice([0, 1]))
+    if len(fpi) < 2:
+        fpi = [0, n - 1]
+    vals = [R(Fraction(rng.randint(-40, 40), 4)) for _ in range(len(fpi) - 1)]
+    if r < 0.5:
+        c.update(fpi=fpi, values=vals)
+    elif r < 0.65:
+        c.update(fpi=fpi, valsnone=True)
+    elif r < 0.92:
+        nv = rng.randint(1, max(1, n // 2))
+        c.update(fpinone=True, values=[R(Fraction(rng.randint(-40, 40), 4)) for _ in range(nv)])
+    else:
+        c.update(fpinone=True, valsnone=True)
+    return c
+
+
 def case_of_event(ev):
     c = {k: ev[k] for k in CASE_KEYS if k in ev}
     c.setdefault("bounded", True)
@@ -153,15 +183,21 @@ def run_match_check(pid, rule, negatives):
     for i in range(nrand):
         k = i % 10
         cases.append(random_match_case(c.rng, exact=(k < 5), scope="reject" if k == 9 else "degenerate" if k == 8 else "in"))
+    if pid == "C01":
+        cases += [random_private_case(c.rng) for _ in range(nrand // 10)]
     if c.replay_path:
-        cases = [case_of_event(json.load(open(c.replay_path))["event"])]
+        rev = json.load(open(c.replay_path))["event"]
+        cases = [case_of_event(rev) if rev["fn"] == "match" else {k: v for k, v in rev.items() if k not in ("outcome", "out", "id", "tags")}]
     evs = c.run_cases(cases, execute)
     for e in evs:
-        if e["outcome"] == "ok" and len(e["xref"]) >= 3:
+        if e["fn"] == "match" and e["outcome"] == "ok" and len(e["xref"]) >= 3:
             c.count_nontrivial(json.dumps(case_of_event(e), sort_keys=True))
     if not c.replay_path:
+        mevs = [e for e in evs if e["fn"] == "match"]
         for pred, mut, prefix in negatives:
-            c.negative_from(evs, pred, mut, prefix)
+            c.negative_from(mevs, pred, mut, prefix)
+        c.negative_from(evs, lambda e: e["fn"] == "stretch_private" and e["outcome"] == "ok" and e["kind"] == "interval" and len(e["out"]) > 2,
+                        lambda e: e["out"].__setitem__(1, [1, 99999, 7]), "impl.stretch_private.interval")
     c.rule = rule
     c.coverage_extra = {"lattice_cases_from_tlc": lattice, "lattice_cases_in_scope": judged, "harness_originated_cases": len(cases) - lattice}
     c.assumptions = ["TLC 1.8, CommunityModules Json/IOUtils",
